@@ -497,6 +497,26 @@ func genNoHaltHist(r *Rng, i int, tier string) []string {
 		}
 	}
 	blk()
+	// a dispute whose fee is completed late (up to a day after the proposal): its voting period then ends later than two days
+	// after the proposal; blocks fall between the two deadlines, nobody (or only small voters) votes
+	if r.Chance(1, 4) {
+		const hour = 3600000
+		add("tip a0 q1 1000")
+		add("blk 1000")
+		add("rep v0 q1 %064x", r.Range(1, 1e9))
+		add("blk 1000")
+		add("disp a1 R%d %d %d 0", r.Intn(8), 1+r.Intn(3), r.Pick(100000, 1000000, 10000))
+		add("blk 1000") // proposed at T0
+		add("blk %d", r.Pick(12*hour, 23*hour, 6*hour, hour))
+		add("addfee a2 %d 1000000000000 0", dispN+1)
+		add("addfee a2 %d 1000000000000 0", dispN)
+		dispN++
+		add("blk 1000") // fee completed at T1 = T0 + gap
+		add("blk %d", 48*hour-r.Pick(hour, 5*hour, 11*hour, 22*hour))
+		add("blk 1000")
+		add("blk %d", r.Pick(hour, 6*hour, 12*hour))
+		add("blk 1000")
+	}
 	add("blk %d", 3*86400000+5)
 	blk()
 	blk()
